@@ -616,7 +616,7 @@ func (d Driver) Run(c *core.Ctx) error {
 		jobs = append(jobs, job{o, what, mc})
 	}
 	// model level
-	add(tlc.Opts{Config: cfg("path", 10, `{"L","A","Q"}`, c.Pick(10, 40), 1, "one", 0, "small", true), Seed: c.Seed, Coverage: c.Thorough()}, "path", true)
+	add(tlc.Opts{Config: cfg("path", 10, `{"L","A","Q"}`, c.Pick(10, 40), 1, "one", 0, "small", true), Seed: c.Seed}, "path", true) // (-coverage slows the recursive operators >50x; the path module has a single action)
 	add(tlc.Opts{Config: cfg("algebra", 4, `{"L"}`, 1, 1, "one", c.Pick(2, 3), "small", true), Coverage: c.Thorough()}, "algebra", true)
 	// spec -> code
 	if c.Thorough() {
@@ -722,12 +722,12 @@ func randTraceCall(r *rand.Rand, pyth, twos *int) Call {
 		case 1:
 			return Call{"Rotate", []int{ri(1, 3)}}
 		case 2:
-			if *pyth < 5 {
+			if *pyth < 3 {
 				*pyth++
 				return Call{"RotateP", []int{ri(1, 4)}}
 			}
 		case 3:
-			if *twos < 5 {
+			if *twos < 3 {
 				*twos++
 				return Call{"Scale", []int{[]int{2, 1, -2, 1}[r.Intn(4)], []int{1, 2, 1, -2}[r.Intn(4)]}}
 			}
@@ -789,8 +789,8 @@ func (d Driver) traces(c *core.Ctx) {
 			f := flat(m2)
 			for k := 0; k < 6; k++ {
 				q, ok := quant(f[k])
-				if !ok || math.Abs(f[k]) > 900 {
-					big = true
+				if !ok || math.Abs(f[k]) > 20 {
+					big = true // keeps every numerator below 2^15 so that the trace spec's products stay inside TLC's 32-bit integers
 				}
 				ev.Obs[k] = q
 			}
